@@ -166,9 +166,23 @@ class Gen(object):
         if profile:
             p.update(profile)
         self.p = p
+        self._braced = [False]
 
     # ---- pieces
+    BRACKETED = ['[a,b]', ']', '[', '(x)', '<', '>', 'a]b', '[[', ')(', '[x', 'y]', '<z>']
+
+    def braced_block(self, braced, *a, **kw):
+        """Generate a block remembering whether it is protected by braces: inside {...} the delimiter
+        characters [ ] ( ) < > are ordinary text whatever non-brace argument encloses the braces."""
+        self._braced.append(braced)
+        try:
+            return self.block(*a, **kw)
+        finally:
+            self._braced.pop()
+
     def text(self, math=False):
+        if self._braced[-1] and self.p.get('bracket_text', 0.15) and self.rng.random() < self.p.get('bracket_text', 0.15):
+            return self.rng.choice(self.BRACKETED)
         n = self.rng.randint(1, 4)
         alpha = SAFE_TEXT if not math else 'abcxyzn0123456789'
         return ''.join(self.rng.choice(alpha) for _ in range(n))
@@ -276,7 +290,7 @@ class Gen(object):
         if k == 'text':
             return ('T', self.text(math))
         if k == 'group':
-            return ('G', self.block(depth + 1, math))
+            return ('G', self.braced_block(True, depth + 1, math))
         if k == 'macro':
             return self.macro(depth, math)
         if k == 'macro0':
@@ -363,7 +377,7 @@ class Gen(object):
             elif kind[0] == 't':
                 out.append((pre, 'mark', kind[1]))
             elif kind in ('[', 'o', '[nospace'):
-                out.append((pre, 'grp', '[', ']', self.block(depth + 1, amath, maxn=2)))
+                out.append((pre, 'grp', '[', ']', self.braced_block(False, depth + 1, amath, maxn=2)))
             elif kind in ('{', 'm') and d.get('letterarg'):
                 r = rng.random()
                 if r < 0.45:
@@ -381,11 +395,11 @@ class Gen(object):
                         out.append((pre, 'tokm', rng.choice(self.v.noarg_math_macros if amath
                                                             else self.v.noarg_macros)))
                 else:
-                    out.append((pre, 'grp', '{', '}', self.block(depth + 1, amath, maxn=3)))
+                    out.append((pre, 'grp', '{', '}', self.braced_block(True, depth + 1, amath, maxn=3)))
             elif kind[0] == 'r':
-                out.append((pre, 'grp', kind[1], kind[2], self.block(depth + 1, amath, maxn=2)))
+                out.append((pre, 'grp', kind[1], kind[2], self.braced_block(False, depth + 1, amath, maxn=2)))
             elif kind[0] == 'd':
-                out.append((pre, 'grp', kind[1], kind[2], self.block(depth + 1, amath, maxn=2)))
+                out.append((pre, 'grp', kind[1], kind[2], self.braced_block(False, depth + 1, amath, maxn=2)))
             elif kind[0] == 'v':
                 if len(kind) == 3:
                     o, c = kind[1], kind[2]
